@@ -3,7 +3,8 @@
 
    Event records (projected by props/C41.py from the original flows and from the flows FlowReader returns for the
    exported HAR bytes).  Byte strings are interned per exchange: equal id <=> equal bytes.
-     [k |-> "exp", i, m, url, ver, reqh, reqb, st, resph, respb, c]   the i-th original flow
+     [k |-> "exp", i, m, url, ver, reqh, reqb, st, resph, respb, ts, c]   the i-th original flow of the list handed
+                                      to the exporter; ts = its request start time (the list need not be in start order)
      [k |-> "imp", i, m, url, ver, reqh, reqb, st, resph, respb]      the i-th imported flow
          m     request method (string)              ver    request HTTP version (string)
          url   id of (scheme, host, port, path)     st     response status code
@@ -59,6 +60,8 @@ MonStep(m, ev) ==
     !.wit = @ \cup (IF ev.k = "exp"
                     THEN {ev.m, ev.ver, ev.c.coding, ev.c.reqb, ev.c.respb, ev.c.reqh, ev.c.resph, ev.c.clen, ev.c.url}
                          \cup (IF ev.i > 1 THEN {"list"} ELSE {})
+                         \cup (IF ev.i > 1 /\ ev.i - 1 <= Len(m.exp) /\ ev.ts < m.exp[ev.i - 1].ts
+                               THEN {"list_not_in_start_order"} ELSE {})
                          \cup (IF ev.m \in BodyMethods /\ ev.c.reqb # "none" THEN {"body_method_with_body"} ELSE {})
                     ELSE IF ev.k = "done" THEN {"done"} ELSE {})]
 Wit(m) == m.wit
